@@ -14,9 +14,9 @@ MACRO_HEADERS = ['tokenizer_macros.h']   # proofs from output_proofs carry their
 IMPL, SPEC = 'contracts/C02/list.impl.cpp', 'contracts/C02/list.spec.c'
 
 
-def LP(name, **kw):
-    return Proof(name, impl=IMPL, spec=None, harness='h_' + name, plain=True, no_contract=True,
-                 functions=['ListManager.h:ChunkListManager::' + name], expect=['postcondition: ' + name], solver=None,
+def LP(name, fn=None, **kw):
+    return Proof(name, impl=IMPL, spec=None, harness='h_' + (fn or name), plain=True, no_contract=True,
+                 functions=['ListManager.h:ChunkListManager::' + (fn or name)], expect=['postcondition: ' + (fn or name)], solver='--sat-solver cadical',
                  note='contract checked as a direct verification condition (assume requires / call / assert ensures) in contracts/C02/list.impl.cpp; '
                       'loop free, fully symbolic 8-node heap: complete; no DFCC (does not terminate on the symbolic heap)', **kw)
 
@@ -29,7 +29,9 @@ PROOFS = [
     LP('AddBefore', mutants=[('no_remove_first', r'Remove\(obj\);\n         obj->m_next = ref;', 'obj->m_next = ref;', 'postcondition')]),
     LP('AddTail', mutants=[('next_not_cleared', r'obj->m_next = Chunk::NullChunkPtr;\n      obj->m_prev = m_tail;', 'obj->m_prev = m_tail;', 'postcondition')]),
     LP('AddHead', mutants=[('head_not_set', r'm_head->m_prev = obj;\n      \}\n      m_head = obj;', 'm_head->m_prev = obj;\n      }', 'postcondition')]),
-    LP('Swap', timeout=1200, mutants=[('adjacent_case_wrong', r'Remove\(obj2\);\n            AddBefore\(obj2, obj1\);', 'Remove(obj2);\n            AddAfter(obj2, obj1);', 'postcondition')]),
+    LP('Swap_apart_or_null', fn='Swap', defines=['SWAP_CASE=0'], timeout=1200),
+    LP('Swap_a_before_b', fn='Swap', defines=['SWAP_CASE=1'], timeout=1200, mutants=[('adjacent_case_wrong', r'Remove\(obj2\);\n            AddBefore\(obj2, obj1\);', 'Remove(obj2);\n            AddAfter(obj2, obj1);', 'postcondition')]),
+    LP('Swap_b_before_a', fn='Swap', defines=['SWAP_CASE=2'], timeout=1200),
 ] + tokenizer_proofs.select(['tok_layout', 'parse_whitespace', 'parse_newline', 'parse_bs_newline', 'parse_off_newlines'])
 
 
